@@ -89,26 +89,34 @@ fn check_one(l: &mut Local, s: &str, o: usize, class: &str) {
     }
 }
 
+/// Further alphabets for byte-level diversity: the largest and the smallest character of every
+/// UTF-8 length class (continuation bytes 0xBF / 0x80) next to the line-break characters.
+pub const ALPHABET_MAX: [&str; 6] = ["\n", "\r", "\u{7f}", "\u{7ff}", "\u{ffff}", "\u{10ffff}"];
+pub const ALPHABET_MIN: [&str; 6] = ["\n", "\r", "\u{80}", "\u{800}", "\u{10000}", "\u{bf}"];
+
 pub fn run(col: &Collector, thorough: bool, seed: u64, jobs: usize) -> Value {
     let max_len = crate::max_len_override().unwrap_or(if thorough { 8 } else { 7 });
+    let extra_len = crate::max_len_override().unwrap_or(if thorough { 6 } else { 5 });
     let k = ALPHABET.len();
     vutil::run_workers(jobs, col, |w, n| {
         let mut l = Local::new();
         let mut s = String::new();
-        for len in 0..=max_len {
-            let total = vutil::pow(k, len);
-            let mut idx = w as u64;
-            while idx < total {
-                vutil::nth_string(&ALPHABET, len, idx, &mut s);
-                // one past the end as well: both must refuse it
-                for o in 0..=s.len() + 1 {
-                    check_one(&mut l, &s, o, "exhaustive");
+        for (alphabet, limit, class) in [(&ALPHABET, max_len, "exhaustive"), (&ALPHABET_MAX, extra_len, "exhaustive-max-of-class"), (&ALPHABET_MIN, extra_len, "exhaustive-min-of-class")] {
+            for len in 0..=limit {
+                let total = vutil::pow(k, len);
+                let mut idx = w as u64;
+                while idx < total {
+                    vutil::nth_string(alphabet, len, idx, &mut s);
+                    // one past the end as well: both must refuse it
+                    for o in 0..=s.len() + 1 {
+                        check_one(&mut l, &s, o, class);
+                    }
+                    l.count("strings");
+                    if idx % 50021 == 7 {
+                        l.sample(json!({"input": s, "offsets": format!("0..={}", s.len() + 1), "class": class}));
+                    }
+                    idx += n as u64;
                 }
-                l.count("strings");
-                if idx % 50021 == 7 {
-                    l.sample(json!({"input": s, "offsets": format!("0..={}", s.len() + 1)}));
-                }
-                idx += n as u64;
             }
         }
         // long random texts
@@ -127,8 +135,21 @@ pub fn run(col: &Collector, thorough: bool, seed: u64, jobs: usize) -> Value {
                     s.push('\r');
                 } else if r < 24 {
                     s.push_str("\r\n");
-                } else {
+                } else if r < 70 {
                     s.push_str(ALPHABET[2 + rng.below(4)]);
+                } else {
+                    // any scalar value (surrogates are skipped by from_u32)
+                    let c = match rng.below(4) {
+                        0 => rng.below(0x80) as u32,
+                        1 => 0x80 + rng.below(0x780) as u32,
+                        2 => 0x800 + rng.below(0xF800) as u32,
+                        _ => 0x10000 + rng.below(0x100000) as u32,
+                    };
+                    if let Some(c) = char::from_u32(c) {
+                        if c != '\n' && c != '\r' {
+                            s.push(c);
+                        }
+                    }
                 }
             }
             let samples = if thorough { 48 } else { 24 };
